@@ -354,6 +354,24 @@ func engcKindWeights(profile string) []string {
 func (g *engcGen) txn() (*txntest.Txn, string) {
 	kinds := engcKindWeights(g.w.Opts.Profile)
 	kind := kinds[rapid.IntRange(0, len(kinds)-1).Draw(g.t, "kind")]
+	if g.w.Opts.Profile == "" {
+		// steering (general mix only): get an application early, and keep application accounts funded so that box
+		// operations and inner payments are applicable
+		if len(g.appIDs) == 0 && rapid.IntRange(0, 3).Draw(g.t, "steerCreate") == 0 {
+			kind = "app-create"
+		}
+		if kind == "app-call" && len(g.appIDs) > 0 && rapid.IntRange(0, 2).Draw(g.t, "steerFund") == 0 {
+			poor := false
+			for _, id := range g.appIDs {
+				if g.spendable(id.Address()) < 200_000 {
+					poor = true
+				}
+			}
+			if poor {
+				kind = "app-fund"
+			}
+		}
+	}
 	if tx := g.build(kind); tx != nil {
 		return tx, kind
 	}
@@ -620,12 +638,18 @@ func (g *engcGen) build(kind string) *txntest.Txn {
 			return nil
 		}
 		app := g.appIDs[rapid.IntRange(0, len(g.appIDs)-1).Draw(t, "app")]
+		for _, id := range g.appIDs { // prefer an application whose account is short of funds
+			if g.spendable(id.Address()) < 200_000 {
+				app = id
+				break
+			}
+		}
 		from := g.funded(1_000_000)
 		if len(from) == 0 {
 			return nil
 		}
 		snd := g.pick("snd", from)
-		amt := rapid.Uint64Range(proto.MinBalance, 1_000_000).Draw(t, "amt")
+		amt := rapid.Uint64Range(300_000, 1_000_000).Draw(t, "amt")
 		return &txntest.Txn{Type: protocol.PaymentTx, Sender: snd, Receiver: app.Address(), Amount: amt}
 	case "app-optin", "app-closeout", "app-clear", "app-update", "app-delete", "app-call":
 		if len(g.appIDs) == 0 {
@@ -679,9 +703,18 @@ func (g *engcGen) build(kind string) *txntest.Txn {
 			cur, boxExists := g.s.Kv[boxKey]
 			ops := []string{"gput", "gput", "gputi", "gdel", "lput", "lput", "ldel", "bcreate", "bcreate", "bput", "bput", "bresize", "breplace", "bdel", "bdel", "ipay", "ipay", "log", "reject", "bogus"}
 			op := ops[rapid.IntRange(0, len(ops)-1).Draw(t, "op")]
-			// steer towards applicable box operations
+			// steer towards applicable box operations: create what is missing, and delete/modify what exists
 			if (op == "bresize" || op == "breplace" || op == "bdel") && !boxExists && rapid.IntRange(0, 4).Draw(t, "boxMissing") != 0 {
 				op = "bcreate"
+			}
+			if (op == "bcreate" || op == "bput") && boxExists && rapid.IntRange(0, 2).Draw(t, "boxPresent") != 0 {
+				op = rapid.SampledFrom([]string{"bdel", "bdel", "breplace", "bresize"}).Draw(t, "boxOp")
+			}
+			if op[0] == 'b' && op != "bogus" && g.spendable(app.Address()) < 50_000 && rapid.IntRange(0, 3).Draw(t, "boxPoor") != 0 {
+				op = "gput" // the application account cannot pay for box storage
+			}
+			if op == "ipay" && g.spendable(app.Address()) < 10_000 && rapid.IntRange(0, 3).Draw(t, "ipayPoor") != 0 {
+				op = "log"
 			}
 			switch op {
 			case "gput":
@@ -723,7 +756,17 @@ func (g *engcGen) build(kind string) *txntest.Txn {
 				tx.ApplicationArgs = [][]byte{[]byte("bdel"), []byte(box)}
 			case "ipay":
 				rcv := g.pick("ircv", g.all)
-				amt := rapid.Uint64Range(0, 300_000).Draw(t, "iamt")
+				if g.bal(rcv) == 0 && rapid.IntRange(0, 3).Draw(t, "ircvEmpty") != 0 {
+					rcv = tx.Sender
+				}
+				hi := g.spendable(app.Address())
+				if hi > 300_000 {
+					hi = 300_000
+				}
+				amt := rapid.Uint64Range(0, hi).Draw(t, "iamt")
+				if rapid.IntRange(0, 9).Draw(t, "iover") == 0 {
+					amt = g.bal(app.Address()) + 1
+				}
 				tx.ApplicationArgs = [][]byte{[]byte("ipay"), engcItob(amt)}
 				tx.Accounts = []basics.Address{rcv}
 				tx.Fee = 3 * minFee
